@@ -1,6 +1,7 @@
 """E1 - matcher correspondence: (tree, real compiled IR, target, API op) -> implementation result vs
 the extracted Coq matcher.  Observable behaviour only: selected element paths in order, match booleans,
 closest path, exception class."""
+import os, signal
 import warnings
 import bs4
 import soupsieve as sv
@@ -36,7 +37,35 @@ class Scenario:
         return [list(self.path_of[id(e)]) for e in els]
 
 
+class OpTimeout(BaseException):
+    pass
+
+
+OP_TIMEOUT = int(os.environ.get('VERIF_OP_TIMEOUT', '30'))
+TIMEOUTS = []          # (scenario, compiled, op): implementation calls that did not return within OP_TIMEOUT seconds
+
+
+def _on_alarm(signum, frame):
+    raise OpTimeout()
+
+
 def real_op(sc, c, op):
+    """One call on the implementation, under a watchdog: a call that does not return is an outcome too."""
+    if any(t[1] is c and t[0] is sc for t in TIMEOUTS[-3:]):
+        return ['error', 'timeout']          # this selector already hung on this tree: do not wait for every further call
+    old = signal.signal(signal.SIGALRM, _on_alarm)
+    signal.alarm(OP_TIMEOUT)
+    try:
+        return _real_op(sc, c, op)
+    except OpTimeout:
+        TIMEOUTS.append((sc, c, op))
+        return ['error', 'timeout']
+    finally:
+        signal.alarm(0)
+        signal.signal(signal.SIGALRM, old)
+
+
+def _real_op(sc, c, op):
     kind = op[0]
     try:
         with warnings.catch_warnings():
